@@ -54,8 +54,10 @@ func ConvertToProtoHeader(src map[string][]string) []*conformancev1.Header {
 	headerInfo := make([]*conformancev1.Header, 0, len(src))
 	for key, value := range src {
 		hdr := &conformancev1.Header{
-			Name:  key,
-			Value: value,
+			Name: key,
+			// The header gets a value list of its own: the map's slice may be
+			// appended to, or converted again, afterwards.
+			Value: append([]string(nil), value...),
 		}
 		headerInfo = append(headerInfo, hdr)
 	}
